@@ -117,6 +117,22 @@ Definition why_lost (t : table) (m : string) (b : Z) : Z :=
   let im := existsb (fun r => mem_z b (i_writes r)) (imp_rows t m) in
   if ex && im then 3 else if ex then 2 else if im then 1 else 0.
 
+(* [init] above is the success path of InitGenesis.  Some setters validate their argument against
+   OTHER state and return an error (collector.SetCollectorLookupTable wants the secondary asset
+   registered as a genesis token of the app); InitGenesis reacts by returning (guard 1: everything
+   after the call is skipped too) or by dropping the item (guard 2).  Whether that happens is not
+   a function of the module's own store, so the table only says which prefixes are AT RISK: fed by
+   a setter that can fail, or by any setter called after one whose failure makes InitGenesis
+   return.  Such a prefix does not count as surviving. *)
+Fixpoint taint (tainted : bool) (rows : list import_row) : list (import_row * bool) :=
+  match rows with
+  | [] => []
+  | r :: rest => (r, tainted || negb (i_guard r =? 0)) :: taint (tainted || (i_guard r =? 1)) rest
+  end.
+
+Definition at_risk (t : table) (m : string) (b : Z) : bool :=
+  existsb (fun rr => snd rr && mem_z b (i_writes (fst rr))) (taint false (imp_rows t m)).
+
 (* a prefix is live when some keeper function writes under it *)
 Definition live (p : prefix_row) : bool := match p_writers p with [] => false | _ => true end.
 
@@ -193,7 +209,8 @@ Definition restored_value (r : restore) (orig : Z) (items : entries) : option Z 
 (* ---------------- the property predicate and the known-finding classes ---------------- *)
 (* what the round trip is predicted to do to a (module, prefix): true = comes back identical *)
 Definition survives (t : table) (m : string) (p : prefix_row) : bool :=
-  if p_counter p then counter_ok t m (p_byte p) else cover_ok (classify t m (p_byte p)).
+  negb (at_risk t m (p_byte p)) &&
+  (if p_counter p then counter_ok t m (p_byte p) else cover_ok (classify t m (p_byte p))).
 
 Local Open Scope string_scope.
 
@@ -230,7 +247,11 @@ Definition known_holes : list (string * Z * Z) :=
     ("asset", 36, 11); ("collector", 9, 11); ("esm", 16, 11); ("esm", 17, 11); ("lend", 81, 11);
     ("liquidation", 18, 11); ("liquidation", 23, 11); ("liquidationsV2", 7, 11);
     ("rewards", 21, 11); ("rewards", 22, 11); ("rewards", 23, 11); ("rewards", 32, 11);
-    ("rewards", 41, 11); ("rewards", 48, 11) ].
+    ("rewards", 41, 11); ("rewards", 48, 11);
+    (* 12: imported through (or after) a setter that validates against other state; when it returns
+           an error InitGenesis silently returns and the rest of the module's genesis is dropped *)
+    ("collector", 3, 12); ("collector", 1, 12); ("collector", 5, 12); ("collector", 7, 12);
+    ("esm", 4, 12); ("esm", 5, 12); ("esm", 7, 12) ].
 Local Close Scope string_scope.
 
 Definition kf_C20 (n : Z) (m : string) (b : Z) : bool :=
@@ -263,8 +284,10 @@ Definition the_table : table := mkT prefixes exports imports unrecognised.
 
 (* prediction for one prefix row of the regenerated table, as a small code for the runner:
    0 identical, 1 zero-valued records, 2 empty, 3 counter recomputed (see [counter_restore]),
-   4 filled from the records of another prefix *)
+   4 filled from the records of another prefix, 5 at risk (identical, or dropped when a validating
+   setter fails) *)
 Definition predict (t : table) (p : prefix_row) : Z :=
+  if at_risk t (p_mod p) (p_byte p) && negb (match classify t (p_mod p) (p_byte p) with CovKeysOnly => true | _ => false end) then 5 else
   match classify t (p_mod p) (p_byte p) with
   | CovDirect => 0
   | CovDerived _ => 0
